@@ -1,13 +1,21 @@
 #!/bin/bash
-# c20/check.sh <quick|thorough>          decide property C20 (shuttle; thorough adds Miri)
-# c20/check.sh --replay <file> [--log]   re-run one persisted failing schedule / Miri seed
+# c20/check.sh <quick|thorough>              decide property C20 (shuttle; thorough adds Miri)
+# c20/check.sh --replay <file> [--log]       re-run one persisted failing schedule / Miri seed
+#                                            (a C12-threads-*.json file is recognised by its content and routed to the c12 family)
+# c20/check.sh c12 <quick|thorough>          run ONLY the second family, `sctp_send`: the thread-interleaving part of
+#                                            property C12 (2..8 threads calling SctpTransport::send_data on one association;
+#                                            the outbound-queue lock is the scheduling point). Does not touch C20's evidence.
+# c20/check.sh c12 --replay <file> [--log]   re-run one persisted failing schedule of that family
+# c20/check.sh c12 --list <quick|thorough>   print that family's workloads
 #
 # Rebuilds the harness (and rustrtc, a path dependency on /repo's working tree, hooks on) and runs it.
-# Exit 0 held (KNOWN-FINDING lines allowed) / 1 violation (VIOLATION property=C20 replay=<path>) / 2 harness error.
-# Honours VERIF_SEED (default 20260925). Writes <root>/evidence/C20.json and, for failures,
-# <root>/replays/C20-*.json (+ .schedule.txt, shuttle's schedule file), where <root> is the parent
-# directory of this crate. Reads <root>/known_findings.json, never writes it.
-# Knobs: C20_WORKERS=n (worker processes, default min(cores,12)); C20_MIRI_SEEDS=n (Miri seeds per mode; 0 = skip Miri).
+# Exit 0 held (KNOWN-FINDING lines allowed) / 1 violation (VIOLATION property=<C20|C12> replay=<path>) / 2 harness error.
+# Honours VERIF_SEED (default 20260925). <root> is the parent directory of this crate.
+#   C20: writes <root>/evidence/C20.json and, for failures, <root>/replays/C20-*.json (+ .schedule.txt, shuttle's schedule file)
+#   c12: writes <root>/evidence/C12-threads.json (property_id "C12", same schema) and <root>/replays/C12-threads-*.json (+ .schedule.txt)
+# Reads <root>/known_findings.json, never writes it (c12 family: entries with property "C12" and pattern.engine == "threads").
+# Knobs: C20_WORKERS=n (worker processes, default min(cores,12), both families); C20_MIRI_SEEDS=n (Miri seeds per mode; 0 = skip Miri);
+#        C12T_SCALE=n (c12 family: n times the schedules per scenario).
 set -u
 here="$(cd "$(dirname "$0")" && pwd)" || exit 2
 root="$(dirname "$here")"
@@ -20,8 +28,18 @@ if ! cargo build --profile sim --offline -q 2> "$log"; then
 fi
 BIN="$root/target-c20/sim/c20"
 if [ "${1:-}" = "--replay" ]; then shift; exec "$BIN" --replay "$@"; fi
+if [ "${1:-}" = "c12" ]; then
+  shift
+  case "${1:-}" in
+    --replay) shift; exec "$BIN" c12 --replay "$@" ;;
+    --list) exec "$BIN" c12 --list "${2:-quick}" ;;
+    quick|thorough) exec "$BIN" c12 check "$1" ;;
+    "") exec "$BIN" c12 check "${VERIF_TIER:-quick}" ;;
+    *) echo "usage: $0 c12 <quick|thorough> | c12 --replay <file> [--log] | c12 --list <quick|thorough>"; exit 2 ;;
+  esac
+fi
 tier="${1:-${VERIF_TIER:-quick}}"
 case "$tier" in
   quick|thorough) exec "$BIN" check "$tier" ;;
-  *) echo "usage: $0 <quick|thorough> | --replay <file> [--log]"; exit 2 ;;
+  *) echo "usage: $0 <quick|thorough> | --replay <file> [--log] | c12 <quick|thorough> | c12 --replay <file> [--log]"; exit 2 ;;
 esac
